@@ -68,7 +68,17 @@ def search(chk, n):
                         key = float(start_t + (k + rng.choice([0.0, 0.3, -0.3])) * 0.1) if as_float else k
                         ctrl.add_single(key, table[k].copy(), post=side)
         want = ref_dynamics(d2, envs, pre, post, props, rho0.reshape(-1), N)
-        got = impl_states(d, pts, props, rho0, N, ctrl=ctrl, start_time=start_t)
+        rec_all = rng.random() < 0.7 and it != 1           # it == 1: only the final state recorded (forced in every run)
+        if it == 1 and ctrl is None and N >= 2:
+            ctrl = oqupy.Control(d)
+            for side, table in ((False, pre), (True, post)):
+                k = rng.randint(1, N - 1)
+                table[k] = rand_complex(rng, (d2, d2), .6)
+                ctrl.add_single(k, table[k].copy(), post=side)
+            want = ref_dynamics(d2, envs, pre, post, props, rho0.reshape(-1), N)
+        got = impl_states(d, pts, props, rho0, N, ctrl=ctrl, record_all=rec_all, start_time=start_t)
+        if not rec_all:
+            want = want[-1:]
         chk.search_cases += 1
         scale = max(1e-300, max(np.abs(w).max() for w in want))
         err = max(np.abs(g - w).max() for g, w in zip(got, want)) / scale
@@ -81,7 +91,7 @@ def search(chk, n):
             perm = list(range(nenv))
             rng.shuffle(perm)
             if perm != list(range(nenv)):
-                got2 = impl_states(d, [pts[i] for i in perm], props, rho0, N, ctrl=ctrl, start_time=start_t)
+                got2 = impl_states(d, [pts[i] for i in perm], props, rho0, N, ctrl=ctrl, record_all=rec_all, start_time=start_t)
                 err2 = max(np.abs(g - w).max() for g, w in zip(got, got2)) / scale
                 chk.search_cases += 1
                 if err2 > 1e-9:
